@@ -517,8 +517,15 @@ def mon_app(pid, run):
             hits.append((i, "same block, same state, different result: %s" % a.get("detail")))
         if pid == "C13" and kind == "a.export" and a.get("same") == "0" and re.match(r"(state-differs:lock:|initial-validator-set-differs|imported-chain-halts)", a.get("detail", "")):
             hits.append((i, "a chain started from the exported state does not carry the same ranking / validator set (the reported set stops being the top-K of the module's record): %s" % a.get("detail")))
+        if pid == "C12" and kind == "a.export" and a.get("same") == "0" and a.get("detail", "").startswith("reward-total-differs"):
+            hits.append((i, "reward value is lost or created when the chain is restarted from its exported state (pools + accrued + queued payouts, before/after): %s" % a.get("detail")))
         if pid == "C18" and kind == "a.export" and a.get("same") == "0":
             hits.append((i, "export/import is not an identity: %s" % a.get("detail")))
+        if pid == "C19" and kind == "a.process" and a.get("own") == "1" and a.get("honest") == "1" and a.get("newstatus") == "VALID" and c != "ok":
+            hits.append((i, "the proposal built by the node's own PrepareProposal handler (%d transactions) is refused by ProcessProposal: no block can be decided while these transactions are pending: %s" % (
+                len(_lst(a.get("kinds", "-"))), impl[:100])))
+        if pid == "C02" and kind == "a.export" and a.get("same") == "0" and re.match(r"state-differs:rel:(seq|epoch|randao|acc):", a.get("detail", "")):
+            hits.append((i, "a chain restarted from its exported state does not carry the vote counters (sequence / epoch / randomness / accepted flag) over: votes accepted before the restart verify again: %s" % a.get("detail")))
         if pid == "C08" and kind == "a.process" and a.get("honest") == "1" and a.get("newstatus") == "VALID" and c != "ok":
             hits.append((i, "honest proposal rejected: %s" % impl[:100]))
         if pid == "C10":
@@ -605,6 +612,19 @@ def mon_c13_all(pid, run):
 
 
 MONITORS["C13"] = mon_c13_all
+
+_prev12 = MONITORS["C12"]
+
+
+def mon_c12_all(pid, run):
+    # the ledger of the keeper-level monitor is fed by `req.lock` / `lock.dequeue` operations, which the whole-application
+    # streams do not have: there only the export/import comparison of the reward total is evaluated
+    if any(o.split(" ")[1] == "a.blockstart" for o in run.ops[:400] if " " in o):
+        return mon_app(pid, run)
+    return _prev12(pid, run)
+
+
+MONITORS["C12"] = mon_c12_all
 
 
 def div_accepts(kinds):
